@@ -56,7 +56,7 @@ def run(ctx, build):
         out.violations.append({'call_site': site, 'input_class': cls, 'failure_mode': mode, 'what': what, 'case': case})
 
     # ------------------------------------------------------------------ ArrayTranslator
-    n_at = 60 if ctx.quick() else 700
+    n_at = 99 if ctx.quick() else 700
     defects = [None, None, None, 'pos_size', 'spec_size', 'rank1', 'rank3', 'not_array', 'pos_not_dims', 'spec_not_dims', 'extra_not_dict', 'extra_reserved_key',
                'extra_key_not_string', 'extra_bad_value', 'quantity_not_string', 'name_empty']
     for i in range(n_at):
@@ -67,7 +67,9 @@ def run(ctx, build):
         defect = None if i % 3 else (defects[(i // 3) % len(defects)] if i < 3 * len(defects) else rng.choice(defects))
         data = (np.arange(N * M).reshape(N, M) + 1).astype(rng.choice([np.float32, np.float64, np.int32]))
         raw = data
-        use_dask = rng.random() < 0.3 or (defect in ('pos_size', 'spec_size') and rng.random() < 0.6)
+        use_dask = rng.random() < 0.3
+        if defect in ('pos_size', 'spec_size'):
+            use_dask = (i // (3 * len(defects))) % 2 == 0          # first round with dask, second with numpy (independent of the seed)
         if use_dask:
             raw = da.from_array(data, chunks=(max(1, N // 2), M))
             hist['array_translator']['dask'] += 1
@@ -260,18 +262,26 @@ def run(ctx, build):
         for tp in itertools.product([True, False], repeat=nd):
             combos.append(tp)
     rng.shuffle(combos)
+    # designed datasets (independent of the seed): a non-spatial axis of a third type in front of a SPECTRAL axis
+    designed = [((True, False, False), ['spatial', 'temporal', 'spectral'], [2, 3, 2]), ((False, False), ['channel', 'spectral'], [3, 2]),
+                ((False, True, False), ['reciprocal', 'spatial', 'spectral'], [2, 2, 3]), ((False, False, True), ['temporal', 'spectral', 'spatial'], [2, 3, 2])]
     h5p = os.path.join(ctx.tmp, 'sidpy.h5')
-    for ci, flags in enumerate(combos if not ctx.quick() else combos[:22]):
+    plan19 = [(fl, tn, sh) for fl, tn, sh in designed] + [(fl, None, None) for fl in (combos if not ctx.quick() else combos[:22])]
+    for ci, (flags, forced_types, forced_shape) in enumerate(plan19):
         nd = len(flags)
         shape = [rng.randint(1, 3) for _ in range(nd)]
         if rng.random() < 0.5:
             shape[rng.randrange(nd)] = rng.randint(2, 4)
+        if forced_shape:
+            shape = list(forced_shape)
         arr = np.arange(int(np.prod(shape)), dtype=np.float64).reshape(shape)
         dset = sid.Dataset.from_array(arr, title='Data_%d' % ci)
         dset.quantity, dset.units, dset.data_type = 'Q', 'u', 'unknown'
         tnames = []
         for ax in range(nd):
             tname = 'spatial' if flags[ax] else rng.choice(types[1:])
+            if forced_types:
+                tname = forced_types[ax]
             tnames.append(tname)
             dset.set_dimension(ax, sid.Dimension(dim_vals(ax, shape[ax]), name='ax%d' % ax, units='u%d' % ax, quantity='q%d' % ax, dimension_type=tname))
         hist['labelled']['datasets'] += 1
